@@ -17,173 +17,138 @@ func render(n ast.Node) string {
 	return b.String()
 }
 
-// fn describes one whitelisted pure function: Lean signature and the substitution of Go
-// sub-expressions (rendered source text) by Lean parameter names.
+// fn describes one whitelisted pure function: its Lean signature and how the Go expressions that
+// denote its inputs are named in Lean.
+//
+// params are the CANONICAL names of the receiver (if any) and the parameters, in order: the names
+// used in the keys of subst.  The names in the source are taken from the AST and renamed to these, so
+// renaming a parameter in /repo changes nothing here.  The keys of subst are canonical renderings
+// (canon in pure.go) of expressions over the canonical names, after locals have been replaced by
+// their definitions: `l := len(ps) … ps[l-1].Header.ContinuityCounter` and
+// `last := ps[len(ps)-1] … last.Header.ContinuityCounter` both give the key
+// `ps[(len(ps)-1)].Header.ContinuityCounter`.  A call whose rendering is a key is opaque (an input
+// of the Lean function); every other call of a package function is inlined.
 type fn struct {
-	goName string
-	lean   string            // Lean name
-	params string            // Lean binder list
-	ret    string            // Lean result type
-	subst  map[string]string // Go source text -> Lean term
+	goName  string
+	lean    string            // Lean name
+	params  []string          // canonical receiver / parameter names
+	binders string            // Lean binder list
+	ret     string            // Lean result type
+	subst   map[string]string // canonical Go expression -> Lean term
 }
 
-// body translates `return e`, `if c { return e }` guards and `switch x { case ...: return e }`.
-func (t *tr) body(name string, stmts []ast.Stmt) string {
-	if len(stmts) == 0 {
-		die("%s: falls off the end", name)
-	}
-	switch s := stmts[0].(type) {
-	case *ast.ReturnStmt:
-		if len(s.Results) != 1 {
-			die("%s: unsupported return", name)
-		}
-		return t.xexpr(s.Results[0])
-	case *ast.AssignStmt:
-		// `l := len(ps)`-style definition whose name is pre-bound: check nothing, skip
-		if len(s.Lhs) == 1 && s.Tok == token.DEFINE {
-			if id, ok := s.Lhs[0].(*ast.Ident); ok {
-				if _, pre := t.subst[id.Name]; pre {
-					if want, ok := t.subst["="+id.Name]; ok && want != render(s.Rhs[0]) {
-						die("%s: %s is defined as %s, expected %s", name, id.Name, render(s.Rhs[0]), want)
-					}
-					return t.body(name, stmts[1:])
-				}
-			}
-		}
-		die("%s: unsupported assignment %s", name, render(s))
-	case *ast.IfStmt:
-		if s.Init != nil || s.Else != nil {
-			die("%s: unsupported if", name)
-		}
-		return "(if " + t.xexpr(s.Cond) + " then " + t.body(name, s.Body.List) + " else " + t.body(name, stmts[1:]) + ")"
-	case *ast.SwitchStmt:
-		if s.Init != nil {
-			die("%s: unsupported switch", name)
-		}
-		rest := "?"
-		if len(stmts) > 1 {
-			rest = t.body(name, stmts[1:])
-		}
-		out := ""
-		closers := ""
-		var dflt string
-		for _, c := range s.Body.List {
-			cc := c.(*ast.CaseClause)
-			if cc.List == nil {
-				dflt = t.body(name, cc.Body)
-				continue
-			}
-			var conds []string
-			for _, e := range cc.List {
-				if s.Tag != nil {
-					conds = append(conds, "("+t.xexpr(s.Tag)+" == "+t.xexpr(e)+")")
-				} else {
-					conds = append(conds, t.xexpr(e))
-				}
-			}
-			out += "(if " + strings.Join(conds, " || ") + " then " + t.body(name, cc.Body) + " else "
-			closers += ")"
-		}
-		if dflt != "" {
-			rest = dflt
-		}
-		if rest == "?" {
-			die("%s: switch without default falls off the end", name)
-		}
-		return out + rest + closers
-	}
-	die("%s: unsupported statement %T", name, stmts[0])
-	return ""
+// tr translates a reduced expression (pure.go) to a Lean term over Nat / Bool: integers are Nat (all
+// operands in the whitelisted functions are unsigned and the results are re-masked by the model;
+// widths are handled in the Lean tie lemmas), conversions between integer types are the identity.
+type tr struct {
+	p     *pkgInfo
+	subst map[string]string
 }
 
-// xexpr: substitution by rendered source text first, then structural translation
+var natOps = map[token.Token]string{token.SHL: "<<<", token.SHR: ">>>", token.XOR: "^^^", token.AND: "&&&", token.OR: "|||",
+	token.ADD: "+", token.SUB: "-", token.MUL: "*", token.REM: "%", token.QUO: "/", token.LAND: "&&", token.LOR: "||",
+	token.EQL: "==", token.NEQ: "!="}
+
+var natCmp = map[token.Token]string{token.LSS: "<", token.GTR: ">", token.LEQ: "≤", token.GEQ: "≥"}
+
+// xexpr: substitution by canonical source text first, then structural translation
 func (t *tr) xexpr(e ast.Expr) string {
-	if r, ok := t.subst[render(e)]; ok {
+	if r, ok := t.subst[canon(e)]; ok {
 		return r
 	}
 	switch e := e.(type) {
 	case *ast.ParenExpr:
-		return "(" + t.xexpr(e.X) + ")"
+		return t.xexpr(e.X)
+	case *ast.BasicLit:
+		if v, ok := t.p.evalConst(e, 0); ok {
+			return fmt.Sprintf("%d", v)
+		}
+		die("untranslatable literal %s", e.Value)
+	case *ast.Ident:
+		if e.Name == "true" || e.Name == "false" {
+			return e.Name
+		}
+		if v, ok := t.p.evalConst(e, 0); ok {
+			return fmt.Sprintf("%d", v)
+		}
+		die("unknown identifier %s at %s", e.Name, fset.Position(e.Pos()))
 	case *ast.UnaryExpr:
 		if e.Op == token.NOT {
 			return "(!" + t.xexpr(e.X) + ")"
 		}
 	case *ast.CallExpr:
-		if id, ok := e.Fun.(*ast.Ident); ok && len(e.Args) == 1 {
-			switch id.Name {
-			case "uint8", "uint16", "uint32", "uint64", "int", "int64", "PSITableID", "byte":
+		if c, a, b, ok := isIte(e); ok {
+			return "(if " + t.xexpr(c) + " then " + t.xexpr(a) + " else " + t.xexpr(b) + ")"
+		}
+		if len(e.Args) == 1 {
+			// conversion of an operand that already fits: the identity in the model domain
+			f := canon(e.Fun)
+			_, named := t.p.types[f]
+			if basicConversions[f] || named || f == "time.Duration" {
 				return t.xexpr(e.Args[0])
 			}
 		}
 	case *ast.BinaryExpr:
 		a, b := t.xexpr(e.X), t.xexpr(e.Y)
-		ops := map[token.Token]string{token.SHL: "<<<", token.SHR: ">>>", token.XOR: "^^^", token.AND: "&&&", token.OR: "|||",
-			token.ADD: "+", token.SUB: "-", token.MUL: "*", token.REM: "%", token.QUO: "/", token.LAND: "&&", token.LOR: "||",
-			token.EQL: "==", token.NEQ: "!="}
-		if op, ok := ops[e.Op]; ok {
+		if op, ok := natOps[e.Op]; ok {
 			return "(" + a + " " + op + " " + b + ")"
 		}
-		cmp := map[token.Token]string{token.LSS: "<", token.GTR: ">", token.LEQ: "≤", token.GEQ: "≥"}
-		if op, ok := cmp[e.Op]; ok {
+		if op, ok := natCmp[e.Op]; ok {
 			return "(decide (" + a + " " + op + " " + b + "))"
 		}
 	}
-	return t.expr(e)
+	die("untranslatable expression %s at %s", canon(e), fset.Position(e.Pos()))
+	return ""
 }
 
 var fns = []fn{
-	{"hasDiscontinuity", "hasDiscontinuity", "(l : Nat) (pHasAF pDI pHasPayload : Bool) (pCC lastCC : Nat)", "Bool",
-		map[string]string{"l": "l", "=l": "len(ps)", "p.Header.HasAdaptationField": "pHasAF", "p.AdaptationField.DiscontinuityIndicator": "pDI",
-			"p.Header.HasPayload": "pHasPayload", "p.Header.ContinuityCounter": "pCC", "ps[l-1].Header.ContinuityCounter": "lastCC"}},
-	{"isSameAsPrevious", "isSameAsPrevious", "(l : Nat) (pHasPayload : Bool) (pCC lastCC : Nat)", "Bool",
-		map[string]string{"l": "l", "=l": "len(ps)", "p.Header.HasPayload": "pHasPayload", "p.Header.ContinuityCounter": "pCC",
-			"ps[l-1].Header.ContinuityCounter": "lastCC"}},
-	{"isPSIPayload", "isPSIPayload", "(pid : Nat) (inProgramMap : Bool)", "Bool",
+	{"hasDiscontinuity", "hasDiscontinuity", []string{"ps", "p"}, "(l : Nat) (pHasAF pDI pHasPayload : Bool) (pCC lastCC : Nat)", "Bool",
+		map[string]string{"len(ps)": "l", "p.Header.HasAdaptationField": "pHasAF", "p.AdaptationField.DiscontinuityIndicator": "pDI",
+			"p.Header.HasPayload": "pHasPayload", "p.Header.ContinuityCounter": "pCC", "ps[(len(ps)-1)].Header.ContinuityCounter": "lastCC"}},
+	{"isSameAsPrevious", "isSameAsPrevious", []string{"ps", "p"}, "(l : Nat) (pHasPayload : Bool) (pCC lastCC : Nat)", "Bool",
+		map[string]string{"len(ps)": "l", "p.Header.HasPayload": "pHasPayload", "p.Header.ContinuityCounter": "pCC",
+			"ps[(len(ps)-1)].Header.ContinuityCounter": "lastCC"}},
+	{"isPSIPayload", "isPSIPayload", []string{"pid", "pm"}, "(pid : Nat) (inProgramMap : Bool)", "Bool",
 		map[string]string{"pid": "pid", "pm.existsUnlocked(pid)": "inProgramMap"}},
-	{"isPESPayload", "isPESPayload", "(len b0 b1 b2 : Nat)", "Bool",
+	{"isPESPayload", "isPESPayload", []string{"i"}, "(len b0 b1 b2 : Nat)", "Bool",
 		map[string]string{"len(i)": "len", "i[0]": "b0", "i[1]": "b1", "i[2]": "b2"}},
-	{"hasPESOptionalHeader", "hasPESOptionalHeader", "(streamID : Nat)", "Bool", map[string]string{"streamID": "streamID"}},
-	{"PESHeader.IsVideoStream", "isVideoStream", "(streamID : Nat)", "Bool", map[string]string{"h.StreamID": "streamID"}},
-	{"PSITableID.isUnknown", "isUnknown", "(t : Nat)", "Bool", map[string]string{"t": "t"}},
-	{"PSITableID.hasPSISyntaxHeader", "hasPSISyntaxHeader", "(t : Nat)", "Bool", map[string]string{"t": "t"}},
-	{"PSITableID.hasCRC32", "hasCRC32", "(t : Nat)", "Bool", map[string]string{"t": "t"}},
-	{"shouldStopPSIParsing", "shouldStopPSIParsing", "(tableID : Nat)", "Bool",
-		map[string]string{"tableID": "tableID", "tableID.isUnknown()": "(isUnknown tableID)"}},
-	{"parseDVBDurationByte", "parseDVBDurationByte", "(i : Nat)", "Nat", map[string]string{"i": "i", "time.Duration(uint8(i)>>4*10 + uint8(i)&0xf)": ""}},
-	{"dvbDurationByteRepresentation", "dvbDurationByteRepresentation", "(n : Nat)", "Nat", map[string]string{"n": "n"}},
-	{"StreamType.ToPESStreamID", "toPESStreamID", "(t : Nat)", "Nat", map[string]string{"t": "t"}},
+	{"hasPESOptionalHeader", "hasPESOptionalHeader", []string{"streamID"}, "(streamID : Nat)", "Bool", map[string]string{"streamID": "streamID"}},
+	{"PESHeader.IsVideoStream", "isVideoStream", []string{"h"}, "(streamID : Nat)", "Bool", map[string]string{"h.StreamID": "streamID"}},
+	{"PSITableID.isUnknown", "isUnknown", []string{"t"}, "(t : Nat)", "Bool", map[string]string{"t": "t"}},
+	{"PSITableID.hasPSISyntaxHeader", "hasPSISyntaxHeader", []string{"t"}, "(t : Nat)", "Bool", map[string]string{"t": "t"}},
+	{"PSITableID.hasCRC32", "hasCRC32", []string{"t"}, "(t : Nat)", "Bool", map[string]string{"t": "t"}},
+	{"shouldStopPSIParsing", "shouldStopPSIParsing", []string{"tableID"}, "(tableID : Nat)", "Bool", map[string]string{"tableID": "tableID"}},
+	{"parseDVBDurationByte", "parseDVBDurationByte", []string{"i"}, "(i : Nat)", "Nat", map[string]string{"i": "i"}},
+	{"dvbDurationByteRepresentation", "dvbDurationByteRepresentation", []string{"n"}, "(n : Nat)", "Nat", map[string]string{"n": "n"}},
+	{"StreamType.ToPESStreamID", "toPESStreamID", []string{"t"}, "(t : Nat)", "Nat", map[string]string{"t": "t"}},
+}
+
+// pureExpr reduces the function to one expression over the canonical names (pure.go)
+func pureExpr(p *pkgInfo, goName string, params []string, opaque func(*ast.CallExpr) bool) ast.Expr {
+	fd, ok := p.funcs[goName]
+	if !ok {
+		die("function %s not found", goName)
+	}
+	var recv ast.Expr
+	args := []ast.Expr{}
+	for i, n := range params {
+		if i == 0 && fd.Recv != nil {
+			recv = ast.NewIdent(n)
+		} else {
+			args = append(args, ast.NewIdent(n))
+		}
+	}
+	x := &purifier{p: p, opaque: opaque}
+	return x.funcExpr(fd, recv, args, fd.Pos())
 }
 
 func emitExprsAndFacts(p *pkgInfo, out string) map[string]interface{} {
 	var b strings.Builder
 	b.WriteString("-- REGENERATED by /verif/extract: pure predicates of /repo translated expression by expression. Do not edit.\nnamespace Astits.Generated\n\n")
 	for _, f := range fns {
-		fd, ok := p.funcs[f.goName]
-		if !ok {
-			die("function %s not found", f.goName)
-		}
-		t := &tr{p: p, mode: "nat", subst: map[string]string{}}
-		for k, v := range f.subst {
-			if v != "" {
-				t.subst[k] = v
-			}
-		}
-		var body string
-		if f.goName == "parseDVBDurationByte" {
-			// return time.Duration(<expr>): strip the conversion to the named type
-			rs, ok := fd.Body.List[0].(*ast.ReturnStmt)
-			if !ok || len(fd.Body.List) != 1 {
-				die("parseDVBDurationByte: unexpected shape")
-			}
-			ce, ok := rs.Results[0].(*ast.CallExpr)
-			if !ok || render(ce.Fun) != "time.Duration" || len(ce.Args) != 1 {
-				die("parseDVBDurationByte: unexpected return")
-			}
-			body = t.xexpr(ce.Args[0])
-		} else {
-			body = t.body(f.goName, fd.Body.List)
-		}
-		fmt.Fprintf(&b, "/-- %s -/\ndef %s %s : %s :=\n  %s\n\n", f.goName, f.lean, f.params, f.ret, body)
+		t := &tr{p: p, subst: f.subst}
+		e := pureExpr(p, f.goName, f.params, func(c *ast.CallExpr) bool { _, ok := f.subst[canon(c)]; return ok })
+		fmt.Fprintf(&b, "/-- %s -/\ndef %s %s : %s :=\n  %s\n\n", f.goName, f.lean, f.binders, f.ret, t.xexpr(e))
 	}
 	b.WriteString("end Astits.Generated\n")
 	write(filepath.Join(out, "Exprs.lean"), b.String())
@@ -208,8 +173,11 @@ func emitExprsAndFacts(p *pkgInfo, out string) map[string]interface{} {
 
 	// 4. functions using a BitsWriterBatch: return statements whose error result is the literal nil
 	nilrets := batchNilReturns(p)
-	fmt.Fprintf(&fb, "/-- `return …, nil` statements inside functions that write through a BitsWriterBatch, with the number of batch writes before them -/\ndef batchNilReturns : List String := %s\n\n", leanStrList(nilrets))
+	fmt.Fprintf(&fb, "/-- (informative) `return …, nil` statements inside functions that create a BitsWriterBatch, with the number of batch writes before them -/\ndef batchNilReturns : List String := %s\n\n", leanStrList(nilrets))
 	facts["batchNilReturns"] = nilrets
+	unchecked := batchNilReturnsUnchecked(p)
+	fmt.Fprintf(&fb, "/-- `return …, nil` statements of functions that write through a BitsWriterBatch with at least one batch write between the last test of the batch error (`b.Err()`) before them and themselves -/\ndef batchNilReturnsUnchecked : List String := %s\n\n", leanStrList(unchecked))
+	facts["batchNilReturnsUnchecked"] = unchecked
 
 	// 5. direct, unchecked io.Writer calls (m.w.Write) must have their error returned
 	fb.WriteString("end Astits.Generated.Facts\n")
@@ -255,9 +223,61 @@ func addOrder(p *pkgInfo) []string {
 	return out
 }
 
-// noCopyStored lists NextBytesNoCopy call sites whose result variable is used in any way other
-// than indexing (bs[k]), len(), or as the argument of a pure reader (binary.BigEndian.Uint16,
-// computeCRC32).
+// pure readers: functions that only read the bytes of a slice argument and keep no reference to it
+var byteReaders = map[string]bool{
+	"binary.BigEndian.Uint16": true, "binary.BigEndian.Uint32": true, "binary.BigEndian.Uint64": true,
+	"binary.LittleEndian.Uint16": true, "binary.LittleEndian.Uint32": true, "binary.LittleEndian.Uint64": true,
+	"bytes.Equal": true, "bytes.IndexByte": true, "len": true, "computeCRC32": true,
+	"string": true, // the conversion copies the bytes
+}
+
+// readOnlyUse: the expression at stack[k] (a view of the iterator's buffer: the result variable of
+// NextBytesNoCopy, or a slice expression of it) is only read by its context.  Reading uses are:
+// indexing, len, the pure readers above, conversion to string, comparison with nil, ranging over it,
+// and slice expressions bs[a:b] that are themselves only read.  Everything else (assignment to a
+// field or another variable, append, return, composite literals, passing it to any other function,
+// taking its address, …) lets the view escape.
+func readOnlyUse(stack []ast.Node, k int) bool {
+	n := stack[k]
+	if k == 0 {
+		return false
+	}
+	switch pn := stack[k-1].(type) {
+	case *ast.ParenExpr:
+		return readOnlyUse(stack, k-1)
+	case *ast.IndexExpr:
+		if pn.X != n {
+			return false
+		}
+		// bs[k] reads (or writes) one byte; &bs[k] is a pointer into the buffer
+		for j := k - 2; j >= 0; j-- {
+			switch g := stack[j].(type) {
+			case *ast.ParenExpr:
+				continue
+			case *ast.UnaryExpr:
+				return g.Op != token.AND
+			}
+			break
+		}
+		return true
+	case *ast.SliceExpr:
+		return pn.X == n && readOnlyUse(stack, k-1)
+	case *ast.CallExpr:
+		if pn.Fun == n {
+			return false
+		}
+		return byteReaders[render(pn.Fun)]
+	case *ast.BinaryExpr:
+		isNil := func(e ast.Expr) bool { id, ok := e.(*ast.Ident); return ok && id.Name == "nil" }
+		return (pn.Op == token.EQL || pn.Op == token.NEQ) && (isNil(pn.X) || isNil(pn.Y))
+	case *ast.RangeStmt:
+		return pn.X == n
+	}
+	return false
+}
+
+// noCopyStored lists the uses of NextBytesNoCopy results that are not reading uses (see
+// readOnlyUse), and the call sites whose result is not assigned to a plain local variable.
 func noCopyStored(p *pkgInfo) []string {
 	var out []string
 	names := make([]string, 0, len(p.funcs))
@@ -271,14 +291,33 @@ func noCopyStored(p *pkgInfo) []string {
 			continue
 		}
 		vars := map[string]bool{}
+		assigned := map[*ast.CallExpr]bool{}
+		isNoCopy := func(e ast.Expr) (*ast.CallExpr, bool) {
+			ce, ok := e.(*ast.CallExpr)
+			if !ok {
+				return nil, false
+			}
+			se, ok := ce.Fun.(*ast.SelectorExpr)
+			return ce, ok && se.Sel.Name == "NextBytesNoCopy"
+		}
 		ast.Inspect(fd.Body, func(n ast.Node) bool {
 			if as, ok := n.(*ast.AssignStmt); ok && len(as.Rhs) == 1 {
-				if strings.Contains(render(as.Rhs[0]), ".NextBytesNoCopy(") {
+				if ce, ok := isNoCopy(as.Rhs[0]); ok {
+					assigned[ce] = true
 					if id, ok := as.Lhs[0].(*ast.Ident); ok {
 						vars[id.Name] = true
 					} else {
 						out = append(out, fname+": result assigned to "+render(as.Lhs[0]))
 					}
+				}
+			}
+			return true
+		})
+		// a call whose result is not the right-hand side of an assignment (returned, passed on, …)
+		ast.Inspect(fd.Body, func(n ast.Node) bool {
+			if e, ok := n.(ast.Expr); ok {
+				if ce, ok := isNoCopy(e); ok && !assigned[ce] {
+					out = append(out, fname+": result of "+render(ce)+" is not assigned to a local variable")
 				}
 			}
 			return true
@@ -292,29 +331,168 @@ func noCopyStored(p *pkgInfo) []string {
 				stack = stack[:len(stack)-1]
 				return true
 			}
+			stack = append(stack, n)
 			if id, ok := n.(*ast.Ident); ok && vars[id.Name] {
-				parent := stack[len(stack)-1]
-				okUse := false
-				switch pn := parent.(type) {
-				case *ast.IndexExpr:
-					okUse = pn.X == n
-				case *ast.AssignStmt:
+				k := len(stack) - 1
+				okUse := readOnlyUse(stack, k)
+				switch pn := stack[k-1].(type) {
+				case *ast.AssignStmt: // the variable being (re)assigned
 					for _, l := range pn.Lhs {
 						if l == n {
 							okUse = true
 						}
 					}
-				case *ast.ValueSpec:
-					okUse = true
-				case *ast.CallExpr:
-					f := render(pn.Fun)
-					okUse = f == "binary.BigEndian.Uint16" || f == "computeCRC32" || f == "len"
+				case *ast.ValueSpec: // var bs []byte
+					for _, l := range pn.Names {
+						if l == id {
+							okUse = true
+						}
+					}
+				case *ast.SelectorExpr: // x.bs: a field that happens to have the same name
+					if pn.Sel == id {
+						okUse = true
+					}
 				}
 				if !okUse {
-					out = append(out, fmt.Sprintf("%s: %s used in %s", fname, id.Name, strings.SplitN(render(parent), "\n", 2)[0]))
+					// the outermost expression the view is part of
+					j := k
+					for j > 0 {
+						if _, isExpr := stack[j-1].(ast.Expr); !isExpr {
+							break
+						}
+						j--
+					}
+					ctx := stack[j]
+					if j > 0 {
+						ctx = stack[j-1]
+					}
+					out = append(out, fmt.Sprintf("%s: %s used in %s", fname, id.Name, strings.SplitN(render(ctx), "\n", 2)[0]))
 				}
 			}
-			stack = append(stack, n)
+			return true
+		})
+	}
+	return out
+}
+
+// batchVars: the BitsWriterBatch variables of a function (created in it or received as parameters)
+func batchVars(fd *ast.FuncDecl) map[string]bool {
+	vars := map[string]bool{}
+	for _, f := range fd.Type.Params.List {
+		if strings.HasSuffix(render(f.Type), "astikit.BitsWriterBatch") {
+			for _, n := range f.Names {
+				vars[n.Name] = true
+			}
+		}
+	}
+	ast.Inspect(fd.Body, func(n ast.Node) bool {
+		switch s := n.(type) {
+		case *ast.AssignStmt:
+			for i, r := range s.Rhs {
+				if ce, ok := r.(*ast.CallExpr); ok && render(ce.Fun) == "astikit.NewBitsWriterBatch" && i < len(s.Lhs) {
+					if id, ok := s.Lhs[i].(*ast.Ident); ok {
+						vars[id.Name] = true
+					}
+				}
+			}
+		case *ast.ValueSpec:
+			for i, r := range s.Values {
+				if ce, ok := r.(*ast.CallExpr); ok && render(ce.Fun) == "astikit.NewBitsWriterBatch" && i < len(s.Names) {
+					vars[s.Names[i].Name] = true
+				}
+			}
+		}
+		return true
+	})
+	return vars
+}
+
+// batchNilReturnsUnchecked: in every function that writes through a BitsWriterBatch (its own or one it
+// received), the `return …, nil` statements that have a batch write textually between the last test
+// of the batch error (`b.Err()`) before them and themselves.  A batch write is a call of any method
+// of the batch other than Err, or passing the batch to another function.  Such a return would report
+// success although a write may have failed: the list is expected to be empty.
+func batchNilReturnsUnchecked(p *pkgInfo) []string {
+	out := []string{}
+	names := make([]string, 0, len(p.funcs))
+	for n := range p.funcs {
+		names = append(names, n)
+	}
+	sort.Strings(names)
+	for _, fname := range names {
+		fd := p.funcs[fname]
+		if fd.Body == nil {
+			continue
+		}
+		vars := batchVars(fd)
+		if len(vars) == 0 {
+			continue
+		}
+		isBatch := func(e ast.Expr) bool {
+			for {
+				switch x := e.(type) {
+				case *ast.ParenExpr:
+					e = x.X
+					continue
+				case *ast.UnaryExpr:
+					e = x.X
+					continue
+				case *ast.StarExpr:
+					e = x.X
+					continue
+				}
+				break
+			}
+			id, ok := e.(*ast.Ident)
+			return ok && vars[id.Name]
+		}
+		var writes, checks []token.Pos
+		ast.Inspect(fd.Body, func(n ast.Node) bool {
+			ce, ok := n.(*ast.CallExpr)
+			if !ok {
+				return true
+			}
+			if se, ok := ce.Fun.(*ast.SelectorExpr); ok && isBatch(se.X) {
+				if se.Sel.Name == "Err" {
+					checks = append(checks, ce.Pos())
+				} else {
+					writes = append(writes, ce.Pos())
+				}
+			}
+			for _, a := range ce.Args {
+				if isBatch(a) {
+					writes = append(writes, ce.Pos())
+				}
+			}
+			return true
+		})
+		ast.Inspect(fd.Body, func(n ast.Node) bool {
+			if _, ok := n.(*ast.FuncLit); ok {
+				return false
+			}
+			rs, ok := n.(*ast.ReturnStmt)
+			if !ok || len(rs.Results) == 0 || render(rs.Results[len(rs.Results)-1]) != "nil" {
+				return true
+			}
+			if ft := fd.Type.Results; ft == nil || render(ft.List[len(ft.List)-1].Type) != "error" {
+				return true
+			}
+			last := token.NoPos
+			for _, c := range checks {
+				if c < rs.Pos() && c > last {
+					last = c
+				}
+			}
+			k := 0
+			for _, w := range writes {
+				if w > last && w < rs.Pos() {
+					k++
+				}
+			}
+			if k > 0 {
+				out = append(out, fmt.Sprintf("%s: return %s with %d batch writes since the last test of the batch error", fname,
+					strings.TrimPrefix(render(rs), "return "), k))
+			}
 			return true
 		})
 	}
